@@ -8,7 +8,7 @@ from ..cfg import NORMAL, Node, handler_classes
 from ..core import Ctx
 from ..flow import ALL, find_path, names_in
 from ..model import AnalysisError, FunctionInfo, dotted, norm_text
-from .common import (code_branches, facts_at, known_flag, edge_target, fold_str, handler_exits, handler_nodes, hint_value, hint_write_nodes, hint_writers,
+from .common import (code_branches, effective_returns, facts_at, known_flag, edge_target, fold_str, handler_exits, handler_nodes, hint_value, hint_write_nodes, hint_writers,
                      in_handler, kwarg, path_arg, reachable_from)
 
 EXPLANATION = (
@@ -34,6 +34,7 @@ def check(ctx: Ctx) -> None:
     # the fence (is_held) and the takeover protocol identify the holder by its owner token
     from .c19 import owner_token_unique
     owner_token_unique(ctx, "C08.R8")
+    r9_cas_capability_consistent(ctx)
     from .c04 import r1 as c04_r1
     c04_r1(ctx)
     # re-label C04.R1 obligations produced just now under C08.R4
@@ -240,6 +241,46 @@ def r7_other_committers(ctx: Ctx, rid: str = "C08.R7") -> None:
                    "lease) is overwritten although the conditional PUT succeeds."), witness=ctx.path_witness(f, wit))
     ctx.ob(rid, None, "second commit paths enumerated", None, True, f"{n_f} function(s) besides MetadataManager.commit read the "
            "pointer's ETag and flip the pointer", nontrivial=False)
+
+
+def r9_cas_capability_consistent(ctx: Ctx, rid: str = "C08.R9") -> None:
+    ctx.rule(rid, "one switch decides conditional writes: S3StorageBackend.supports_cas returns the very flag create_lock tests to "
+             "hand out the conditional-write lock (use_conditional_writes) and nothing else - a backend that takes the CAS lock "
+             "but flips the pointer unconditionally loses every update a stale holder overwrites; torn ETag reads are excluded: "
+             "read_file_with_etag takes content and ETag from ONE response", 3)
+    s3 = ctx.prog.cls("storage_backend.S3StorageBackend")
+    sc = s3.methods.get("supports_cas")
+    cl = s3.methods.get("create_lock")
+    if sc is None or cl is None:
+        raise AnalysisError("supports_cas / create_lock vanished from S3StorageBackend")
+    flags = set()
+    g = ctx.cfg(cl)
+    for b in [x for x in g.nodes if x.kind == "branch" and x.ast is not None]:
+        flags |= {nm for nm in names_in(b.ast) if nm.startswith("self.")}
+    rets = [v for _r, v in effective_returns(ctx, sc)]
+    ok = bool(rets) and bool(flags) and all(isinstance(v, ast.Attribute) and dotted(v) in flags for v in rets)
+    ctx.ob(rid, sc, "supports_cas is exactly the lock-selection flag", None, ok,
+           f"returns {[norm_text(v) for v in rets if v is not None]}; create_lock branches on {sorted(flags)}")
+    rf = s3.methods.get("read_file_with_etag")
+    if rf is None:
+        raise AnalysisError("S3StorageBackend.read_file_with_etag vanished")
+    scopes = [rf] + list(rf.nested.values())
+    boto = [(f, n) for f in scopes for n in ctx.cfg(f).calls() if n.id in ctx.cfg(f).reachable() and n.callee is not None
+            and n.callee.kind == "prim" and n.callee.name.startswith("boto.")]
+    ctx.ob(rid, rf, "content and ETag come from one request", boto[0][1] if boto else None,
+           len(boto) == 1 and boto[0][1].callee.name == "boto.get_object",
+           f"S3 requests in read_file_with_etag: {[n.callee.name for _f, n in boto]} - a second request (HEAD for the ETag) can "
+           "describe a newer pointer than the content that was validated")
+    # the ETag returned is read off that response
+    for f, n in boto[:1]:
+        fg = ctx.cfg(f)
+        sl = ctx.slicer(f)
+        okr = False
+        for r in [x for x in fg.nodes if x.kind == "return" and x.id in fg.reachable() and x.ast is not None and isinstance(x.ast.value, ast.Tuple)]:  # type: ignore[union-attr]
+            et = r.ast.value.elts[-1]  # type: ignore[union-attr]
+            org = sl.origins(et, r.id)
+            okr = n.ast in org["calls"] and "ETag" in {c for c in org["consts"] if isinstance(c, str)}
+        ctx.ob(rid, f, "the ETag is the GET response's ETag", n, okr, "response['ETag'] of the same get_object")
 
 
 def r2(ctx: Ctx) -> None:
